@@ -13,7 +13,7 @@ TRUSTED = [
     "modelled, not verified: Rust std str::{split, splitn, replace, trim*, chars} as list functions; char::is_whitespace as the White_Space set",
     "oracles (tables observed from the implementation in the same run): char::to_uppercase/to_lowercase per character, extended grapheme clusters (unicode-segmentation); U+03A3 (final-sigma context rule of str::to_lowercase) is not generated",
 ]
-RULE = ("exhaustive strings over the 10-symbol alphabet (<=3 quick, <=4 thorough) x every string filter x arguments (<=1 symbol quick, <=2 thorough; integers -6..8), "
+RULE = ("exhaustive strings over the 10-symbol alphabet (<=2 and a sample of length 3 quick; <=3 and a sample of length 4 thorough) x every string filter x arguments (<=1 symbol, thorough also 20 two-symbol arguments; integers -6..8), "
         "split/join and strip laws as chains, random strings up to 200 and random chains of 1..4 filters; non-trivial = the result differs from the input")
 
 ALPHA = ["a", "B", " ", "\n", "\t", ",", "<", "é", "́", "\U0001F600"]
@@ -37,12 +37,14 @@ def strings(n):
 
 def gen(tier, seed):
     rnd = random.Random(seed)
-    L = 3 if tier == "quick" else 4
-    A = 1 if tier == "quick" else 2
-    ss = list(strings(L))
-    if tier == "quick":      # exhaustive up to length 2, a seeded third of length 3 (thorough: everything up to 4)
+    ss = list(strings(3))
+    if tier == "quick":      # exhaustive up to length 2, a seeded eighth of length 3 (thorough: everything up to 3 and a sample of length 4)
         ss = [s for s in ss if len(s) <= 2 or rnd.random() < 0.12]
-    aa = list(strings(A))
+    else:
+        ss += ["".join(rnd.choice(ALPHA) for _ in range(4)) for _ in range(600)]
+    aa = list(strings(1))
+    aa1 = aa if tier == "quick" else aa + rnd.sample([a for a in strings(2) if len(a) == 2], 20)     # arguments of the one-argument filters
+
     cases = []
 
     def add(x, chain, why):
@@ -51,7 +53,7 @@ def gen(tier, seed):
         for f in ("upcase", "downcase", "capitalize", "strip", "lstrip", "rstrip", "strip_newlines", "size", "first", "last", "newline_to_br"):
             add(S_(s), [(f, [])], "unary")
         add(S_(s), [("rstrip", []), ("lstrip", [])], "law-strip")
-        for a in aa:
+        for a in aa1:
             for f in ("append", "prepend", "remove", "remove_first", "split", "replace"):
                 add(S_(s), [(f, [S_(a)])], "arg1")
             add(S_(s), [("split", [S_(a)]), ("join", [S_(a)])], "law-split-join")
@@ -65,7 +67,7 @@ def gen(tier, seed):
                     add(S_(s), [("slice", [I_(n), I_(m)])], "slice")
     small = [s for s in ss if len(s) <= 2]
     for s in ss:
-        if tier == "quick" and rnd.random() > 0.25:
+        if rnd.random() > (0.25 if tier == "quick" else 0.5):
             continue
         for a in aa:
             for b in aa:
@@ -117,7 +119,7 @@ def gen(tier, seed):
         add(S_("abc def"), [("truncatewords", [v])], "bounds")
     for i, c in enumerate(cases):
         c["id"] = i
-    dist = {"exhaustive": True, "alphabet": len(ALPHA), "max_len": L, "max_arg_len": A}
+    dist = {"exhaustive": True, "alphabet": len(ALPHA), "max_len": 3 if tier == "quick" else 4, "max_arg_len": 1 if tier == "quick" else 2}
     for c in cases:
         dist[c["why"]] = dist.get(c["why"], 0) + 1
     return cases, dist
